@@ -78,6 +78,14 @@ MUTS = {
     "M63b_v0_alpha_lost": ("colr_to_svg.py", "        paint = PaintSolid(_color(ttfont, glyph_layer.colorID))", "        paint = PaintSolid(_color(ttfont, glyph_layer.colorID).opaque())", ["C13"]),
     "M63c_group_alpha_lost": ("colr_to_svg.py", "                g.attrib[\"opacity\"] = ntos(color.alpha)\n", "                g.attrib[\"opacity\"] = ntos(1.0)\n", ["C13"]),
     "M63d_layers_reversed": ("colr_to_svg.py", "        for child_paint in layerList[\n            ot_paint.FirstLayerIndex : ot_paint.FirstLayerIndex + ot_paint.NumLayers\n        ]:", "        for child_paint in reversed(layerList[\n            ot_paint.FirstLayerIndex : ot_paint.FirstLayerIndex + ot_paint.NumLayers\n        ]):", ["C13"]),
+    "M39_blank_glyphs_unsorted": ("write_font.py", "    ufo.glyphOrder = ufo.glyphOrder + sorted(glyph_names)\n", "    ufo.glyphOrder = ufo.glyphOrder + glyph_names\n", ["C08"]),
+    "M40_disjoint_set_unsorted": ("svg.py", "    return initial_glyphs + reuse_groups.sorted()\n", "    return initial_glyphs + tuple(tuple(s) for s in reuse_groups.sets())\n", ["C08"]),
+    "M41_palette_unsorted": ("colors.py", "    cpal_colors = deque(sorted(all_colors, key=_color_sort_key))\n", "    cpal_colors = deque(sorted(all_colors, key=lambda c: (_color_sort_key(c)[0],)))\n", ["C08", "C15"]),
+    "M42_sources_unsorted": ("config.py", "        srcs = tuple(sorted(util.abspath(p) for p in srcs))\n", "        srcs = tuple(util.abspath(p) for p in srcs)\n", ["C08"]),
+    "M44_glyphmap_not_implicit_dep": ("nanoemoji.py", "        \"glyphmap_file\": rel_build(_glyphmap_file(font_config, master)),\n        \"part_file\": master_part_file_dest(),\n    }", "        \"part_file\": master_part_file_dest(),\n    }", ["C09"]),
+    "M45_gen_ninja_skipped_when_exists": ("nanoemoji.py", "    if gen_ninja():\n        logging.info(f\"Generating {build_file.relative_to(build_dir())}\")", "    if gen_ninja() and not build_file.exists():\n        logging.info(f\"Generating {build_file.relative_to(build_dir())}\")", ["C09"]),
+    "M46_ninja_failure_ignored": ("ninja.py", "        subprocess.run(ninja_cmd, check=True)", "        subprocess.run(ninja_cmd, check=False)", ["C09", "C17"]),
+    "M43_config_not_a_dependency": ("nanoemoji.py", "        implicit=list(variables.values()),\n        variables=variables,\n    )\n    nw.newline()\n\n\ndef write_variable_font_build", "        implicit=[v for k, v in variables.items() if k != \"config_file\"],\n        variables=variables,\n    )\n    nw.newline()\n\n\ndef write_variable_font_build", ["C09", "C20"]),
     "M68_unindexed_popleft": ("colors.py", "            result[i] = cpal_colors.pop()\n", "            result[i] = cpal_colors.popleft() if cpal_colors[0].palette_index is None else cpal_colors.pop()\n", ["C15"]),
     "M69_slots_len_only": ("colors.py", "    cpal_slots = max(len(all_colors), max(indexed_colors, default=-1) + 1)", "    cpal_slots = max(len(all_colors), len(indexed_colors))", ["C15"]),
     "M70_conflict_by_rgb_only": ("colors.py", "            if color.palette_index in indexed_colors:\n", "            if color.palette_index in indexed_colors and indexed_colors[color.palette_index][:3] != color[:3]:\n", ["C15"]),
